@@ -459,6 +459,10 @@ func (s *session) visitNode(sprint *sprint, run flows.Run, node flows.Node, trig
 		if err := trigger.InitializeRun(run, logEvent); err != nil {
 			return step, nil, "", nil
 		}
+
+		// initializing the run can change the contact, e.g. a message trigger sets last seen on, so groups have
+		// to be checked again
+		s.ensureQueryBasedGroups(logEvent)
 	}
 
 	// execute our node's actions
